@@ -30,8 +30,8 @@
         PurgeAllDroppedDatabases : delete everything in the holding directory
    Not modelled: two drops of the same exact name within one millisecond (the
    backup name collides and DROP DATABASE fails half-way), the root database's
-   directory layout (.dolt moved into <holding>/<name>/; it comes back as a nested
-   database — same bookkeeping), file-system errors. *)
+   directory layout beyond its name (.dolt moved into <holding>/<name as typed>/; it
+   comes back as a nested database called <name as typed>), file-system errors. *)
 From Coq Require Import NArith List Bool.
 Import ListNotations.
 Local Open Scope N_scope.
@@ -43,8 +43,11 @@ Definition name_eqb (a b : name) : bool := (fst a =? fst b) && (snd a =? snd b).
 
 Record pstate := {
   live : list (N * (N * db));                     (* class -> (spelling, value) *)
-  dropped : list (name * db)                      (* holding directory: exact name -> value *)
+  dropped : list (name * db);                     (* holding directory: exact name -> value *)
+  root : option N                                 (* the class of the database that lives in the data directory itself *)
 }.
+
+Definition is_root (s : pstate) (i : N) : bool := match root s with Some r => r =? i | None => false end.
 
 Fixpoint lookup {A : Type} (k : N) (l : list (N * A)) : option A :=
   match l with
@@ -97,18 +100,21 @@ Definition step (s : pstate) (o : op) : option pstate :=
   | Create n stamp =>
     match lookup (fst n) (live s) with
     | Some _ => None
-    | None => Some {| live := put (fst n) (snd n, [stamp]) (live s); dropped := dropped s |}
+    | None => Some {| live := put (fst n) (snd n, [stamp]) (live s); dropped := dropped s; root := root s |}
     end
   | Mutate n k =>
     match lookup (fst n) (live s) with
-    | Some (v, d) => Some {| live := put (fst n) (v, d ++ [k]) (live s); dropped := dropped s |}
+    | Some (v, d) => Some {| live := put (fst n) (v, d ++ [k]) (live s); dropped := dropped s; root := root s |}
     | None => None
     end
   | Drop n aside =>
     match lookup (fst n) (live s) with
     | Some (v, d) =>
-      let e := (fst n, v) in
-      Some {| live := del (fst n) (live s); dropped := (e, d) :: rename e aside (dropped s) |}
+      (* nested database: the holding entry is named after the directory (the exact name);
+         root database: after the name AS TYPED in the statement (newSubdirectory := <holding>/<name>) *)
+      let e := (fst n, if is_root s (fst n) then snd n else v) in
+      Some {| live := del (fst n) (live s); dropped := (e, d) :: rename e aside (dropped s);
+              root := if is_root s (fst n) then None else root s |}
     | None => None
     end
   | Undrop n =>
@@ -116,11 +122,11 @@ Definition step (s : pstate) (o : op) : option pstate :=
     | Some (e, d) =>
       match lookup (fst e) (live s) with
       | Some _ => None
-      | None => Some {| live := put (fst e) (snd e, d) (live s); dropped := remove_exact e (dropped s) |}
+      | None => Some {| live := put (fst e) (snd e, d) (live s); dropped := remove_exact e (dropped s); root := root s |}
       end
     | None => None
     end
-  | Purge => Some {| live := live s; dropped := [] |}
+  | Purge => Some {| live := live s; dropped := []; root := root s |}
   end.
 
 Definition step' (s : pstate) (o : op) : pstate := match step s o with Some s' => s' | None => s end.
